@@ -163,3 +163,19 @@ def _sqrt(v):
     if isinstance(v, SReal):
         return v.sqrt()
     return math.sqrt(v)
+
+
+def cross(a, b, **kw):
+    """np.cross; numpy's own implementation mixes float64 temporaries into object arrays."""
+    CALLS[0] += 1
+    aa, bb = np.asarray(a), np.asarray(b)
+    if aa.dtype != object and bb.dtype != object:
+        return np.cross(a, b, **kw)
+    if kw or aa.shape[-1] != 3 or bb.shape[-1] != 3:
+        raise Unsupported("np.cross on object arrays with axis arguments / non-3-vectors")
+    aa, bb = np.broadcast_arrays(aa.astype(object), bb.astype(object))
+    out = np.empty(aa.shape, dtype=object)
+    out[..., 0] = aa[..., 1] * bb[..., 2] - aa[..., 2] * bb[..., 1]
+    out[..., 1] = aa[..., 2] * bb[..., 0] - aa[..., 0] * bb[..., 2]
+    out[..., 2] = aa[..., 0] * bb[..., 1] - aa[..., 1] * bb[..., 0]
+    return out
